@@ -19,6 +19,7 @@ type CrashCase struct {
 	Setup      []Op        `json:"setup"`
 	Target     Op          `json:"target"`
 	Inject     *Inject     `json:"inject,omitempty"`
+	Bulk       []int       `json:"bulk,omitempty"` // bulk world: epics, tasks per epic, tasks left open
 	Violations []Violation `json:"violations,omitempty"`
 	Trace      []string    `json:"trace,omitempty"`
 }
@@ -267,5 +268,66 @@ func TestC03(t *testing.T) {
 			}
 			return false
 		},
+	})
+}
+
+// runBulkPruneCrash: prune --yes of > 60 items under kill enumeration. The observable
+// state after a kill must be the state before or after; in particular no task may be left
+// pointing at a pruned epic.
+func runBulkPruneCrash(t *testing.T, prop, test string) {
+	if err := StraceAvailable(); err != nil {
+		t.Skipf("INFRA: %v", err)
+	}
+	if os.Getenv("VERIF_MINIMIZE_IN") != "" {
+		return
+	}
+	if p := os.Getenv("VERIF_REPLAY_IN"); p != "" {
+		b, _ := os.ReadFile(p)
+		var cc CrashCase
+		if err := json.Unmarshal(b, &cc); err != nil || len(cc.Bulk) != 3 {
+			t.Fatalf("bad replay file")
+		}
+		w := NewWorld(prop + "bulk-replay")
+		defer w.Close()
+		pre, ok := bulkPruneWorld(w, cc.Bulk[0], cc.Bulk[1], cc.Bulk[2])
+		if !ok {
+			t.Fatalf("bulk world could not be built")
+		}
+		if oc := runAtomicityFor(prop, w, pre, cc.Target, cc.Inject); len(oc.viol) > 0 {
+			t.Fatalf("REPLAY-VIOLATION %s: %v", prop, oc.viol)
+		}
+		return
+	}
+	stats := NewStats(prop, "CRASH/bulk-prune", "stores with 18-170 finished tasks spread over 3-12 epics (built by plans, marked done) and a few open ones; `prune --yes` is killed by SIGKILL before each system call it issues on the store's files; after each kill the store must show the state before or the state after - never some items pruned and others not, never a live task under a pruned epic; non-trivial = more than 64 items are pruned and the kill landed between the first and last mutating call; distinct = (sizes, kill position)")
+	defer stats.Flush()
+	replayPath := ReplayOutPath(prop)
+	rapid.Check(t, func(rt *rapid.T) {
+		w := NewWorld(prop + "bulk")
+		defer w.Close()
+		bulk := []int{between(rt, 3, 12, "bulk.epics"), between(rt, 6, 14, "bulk.per"), between(rt, 0, 5, "bulk.keep")}
+		pre, ok := bulkPruneWorld(w, bulk[0], bulk[1], bulk[2])
+		if !ok {
+			stats.Abort("bulk world could not be built")
+			return
+		}
+		target := Op{Kind: "prune_yes", N: 900}
+		oc := runAtomicityFor(prop, w, pre, target, nil)
+		if len(oc.viol) > 0 {
+			for _, v := range CheckInvariants(pre) {
+				_ = v
+			}
+			WriteReplay(replayPath, CrashCase{Property: prop, Engine: "CRASH", Test: test, Target: target, Inject: oc.failing, Violations: oc.viol, Trace: oc.trace, Bulk: bulk})
+			rt.Fatalf("%s violated: %v", prop, oc.viol)
+		}
+		stats.Eval()
+		stats.LabelN("kill_points", oc.points)
+		stats.LabelN("items_in_store", len(pre.Items))
+		if len(PruneSet(pre)) > 64 {
+			stats.Label("prunes_more_than_64_items")
+			for _, n := range oc.nontrivial {
+				stats.NonTrivial(fmt.Sprintf("%d:%s", len(pre.Items), n))
+			}
+		}
+		stats.Sample(len(pre.Items), map[string]any{"items": len(pre.Items), "to_prune": len(PruneSet(pre)), "kill_points": oc.points, "syscalls_on_store": oc.trace})
 	})
 }
